@@ -225,6 +225,9 @@ def compute_flow_decomp_safe_paths(
     """
 
     stG = stdag.stDAG(G)
+    # The flow values are validated before they are peeled: the peeling loop subtracts bottlenecks until nothing is left, which never
+    # happens for an infinite or NaN value (inf - inf = nan), and reads the attribute of every edge
+    stG.get_max_flow_value_and_check_non_negative_flow(flow_attr=flow_attr, edges_to_ignore=stG.source_sink_edges)
     decomp_paths = stG.decompose_using_max_bottleneck(flow_attr)[0]
     return compute_inexact_flow_decomp_safe_paths(
         G = G, 
